@@ -66,7 +66,9 @@ def jinput (j : Json) : R CliInput := do
          thr := ← jrat (← jget j "thr"), psm := ← jrat (← jget j "psm")
          keepAll := ← boolField j "keep_all"
          out := ← optField j "out" jout
-         recs := (← optField j "recs" (jlist jrec)).getD [] }
+         recs := (← optField j "recs" (jlist jrec)).getD []
+         pepMapFiles := ← optField j "pep_map_files" (jlist jS)
+         mokapotFiles := (← optField j "mokapot_files" (jlist jbool)).getD [] }
 
 def ofRowData (d : C06.RowData) : Json := ofRow (C06.render d)
 
@@ -81,7 +83,10 @@ def ofTable (t : CliTable) : Json :=
 
 /-- `{"op":"cli", "fasta":[[line…]…]|null, "contains_decoys":b, "gene_level":b, "use_uniprot":b,
       "enzyme":[…]?, "digestion":[…]?, "min_length":[…]?, "max_length":[…]?, "cleavages":[…]?, "special_aas":[…]?,
-      "methods":"m1,m2", "mq"|"perc"|"fragpipe"|"sage"|"diann": [[row…]…]|null, "mokapot":b,
+      "methods":"m1,m2", "mq"|"perc"|"fragpipe"|"sage"|"diann": [[row…]…]|null (rows as the op "ingest" of C10 takes
+      them, + "razor_prot" for MaxQuant), "mokapot":b (header style of every Percolator file), "mokapot_files":[b…]?
+      (header style per Percolator file, by position), "pep_map_files":[text…]|null (`--peptide_protein_map`: the text of
+      every file, `\r\n` line ends, quote-free),
       "thr":R, "psm":R, "keep_all":b, "out":{"dir","stem","suffix"}|null,
       "recs":[{"shuffles","cuts","razor_keys","scores1","scores2","rescue_cutoff"}…]}`
     → `{"err": tag|null, "tables":[null|{method,file,dir,pil,rows,records,pass1,rescue_score,pass2}…],
